@@ -216,8 +216,152 @@ def exactness(ctx, facts):
             ctx.ok('C12.e', 'FPNum.%s' % mn, 'no right shift, division, rounding or precision limit: the result keeps every bit')
 
 
+def ordering(ctx, facts):
+    """C12.f: FPNum.compare orders the rationals the operands denote.
+    (1) mantissas are not normalised (a zero keeps whatever exponent it had), so no ordering decision may be
+        control-dependent on a test of the exponent or precision fields: those may only steer the alignment;
+        mantissas are compared only after both operands can be aligned in exponent and precision;
+    (2) decision table: with finite operands of opposite sign and zero mantissas every feasible path returns 0
+        (+0 and -0 denote the same rational); with equal signs and equal aligned mantissas it returns 0."""
+    from ..cfg import fn_paths
+    from ..dectab import ev as dev, Unknown, Crash
+    from ..srcmap import norm
+    c = facts.cls('FPNum', HELPER, required=False)
+    fn = c.methods.get('compare') if c is not None else None
+    if fn is None:
+        ctx.error('C12.f', 'anchor FPNum.compare not found')
+        return
+    where = '%s:FPNum.compare' % HELPER
+    other = fn.args.args[1].arg if len(fn.args.args) > 1 else 'bref'
+    # ---- (1) control dependence
+    ret_names = set()
+    for n in ast.walk(fn):
+        if isinstance(n, ast.Return) and n.value is not None:
+            for x in ast.walk(n.value):
+                if isinstance(x, ast.Name):
+                    ret_names.add(x.id)
+
+    def deciding(n):
+        if isinstance(n, ast.Return):
+            return True
+        if isinstance(n, ast.Assign):
+            return any(isinstance(t, ast.Name) and t.id in ret_names for t in n.targets)
+        return False
+
+    def mentions_scale(test):
+        return sorted({x.attr for x in ast.walk(test) if isinstance(x, ast.Attribute) and x.attr in ('e', 'p')})
+    bad = []
+
+    def walk(stmts, tests):
+        for st in stmts:
+            if deciding(st):
+                for t in tests:
+                    f = mentions_scale(t)
+                    if f:
+                        bad.append((norm(st)[:50], norm(t)[:60], f))
+            if isinstance(st, ast.If):
+                walk(st.body, tests + [st.test])
+                walk(st.orelse, tests + [st.test])
+            elif isinstance(st, (ast.For, ast.While)):
+                walk(st.body, tests + ([st.test] if isinstance(st, ast.While) else []))
+                walk(st.orelse, tests)
+            elif isinstance(st, ast.Try):
+                walk(st.body, tests)
+                for h in st.handlers:
+                    walk(h.body, tests)
+                walk(st.finalbody, tests)
+            elif isinstance(st, ast.With):
+                walk(st.body, tests)
+    walk(fn.body, [])
+    compares_m = any(isinstance(x, ast.Compare) and any(isinstance(y, ast.Attribute) and y.attr == 'm' for y in ast.walk(x)) for x in ast.walk(fn))
+    if bad:
+        st, t, f = bad[0]
+        ctx.violation('C12.f', 'FPNum.compare:decided-on-scale', 'the order is decided under a test of the %s field (`%s` governs `%s`): mantissas are not normalised, a zero or a denormalised value keeps '
+                      'any exponent' % ('/'.join(f), t, st), where, witness=dict(operands='FPNum(0.0) against FPNum(0.125): zero carries exponent -1, 0.125 exponent -3'))
+    elif compares_m:
+        aligned = {}
+        for x in ast.walk(fn):
+            if isinstance(x, ast.Call) and isinstance(x.func, ast.Attribute) and x.func.attr in ('increase_exponent', 'increase_precision', 'adjust_sem', 'adjust_semp'):
+                aligned.setdefault(x.func.attr, set()).add(norm(x.func.value))
+        exp_ok = len(aligned.get('increase_exponent', ())) >= 2 or aligned.get('adjust_sem') or aligned.get('adjust_semp')
+        prec_ok = len(aligned.get('increase_precision', ())) >= 2 or aligned.get('adjust_semp')
+        if exp_ok and prec_ok:
+            ctx.ok('C12.f', 'FPNum.compare:aligned', 'mantissas are compared after either operand can be aligned in exponent and precision; no ordering decision depends on the e / p fields')
+        else:
+            ctx.violation('C12.f', 'FPNum.compare:not-aligned', 'mantissas are compared although %s cannot be aligned on both operands' % ('the exponent' if not exp_ok else 'the precision'), where,
+                          witness=dict(alignment_calls={k: sorted(v) for k, v in aligned.items()}))
+    else:
+        ctx.ok('C12.f', 'FPNum.compare:aligned', 'compare() does not compare mantissa fields directly (rewritten): the alignment clause is not evaluable', grade='refused')
+    # ---- (2) decision table
+    scen = [('opposite-sign zeros', dict(s1=-1, s2=1, m1=0, m2=0), 0),
+            ('opposite-sign zeros (reversed)', dict(s1=1, s2=-1, m1=0, m2=0), 0),
+            ('equal values, both negative', dict(s1=-1, s2=-1, m1=5, m2=5), 0),
+            ('equal values, both positive', dict(s1=1, s2=1, m1=5, m2=5), 0),
+            ('negative against positive', dict(s1=-1, s2=1, m1=5, m2=3), -1),
+            ('positive against negative', dict(s1=1, s2=-1, m1=3, m2=5), 1),
+            ('both negative, larger magnitude first', dict(s1=-1, s2=-1, m1=7, m2=3), -1),
+            ('both positive, larger magnitude first', dict(s1=1, s2=1, m1=7, m2=3), 1)]
+    # local objects built from the operands: name -> which operand
+    objs = {'self': 1, other: 2}
+    for n in ast.walk(fn):
+        if isinstance(n, ast.Assign) and len(n.targets) == 1 and isinstance(n.targets[0], ast.Name) and isinstance(n.value, ast.Call):
+            srcs = {x.value.id for x in ast.walk(n.value) if isinstance(x, ast.Attribute) and isinstance(x.value, ast.Name) and x.value.id in ('self', other)}
+            if len(srcs) == 1:
+                objs[n.targets[0].id] = 1 if 'self' in srcs else 2
+    paths = fn_paths(fn)
+    for label, sc, expect in scen:
+        base = {}
+        for nm, k in objs.items():
+            base['%s.s' % nm] = sc['s%d' % k]
+            base['%s.m' % nm] = sc['m%d' % k]
+            base['%s.nan' % nm] = False
+            base['%s.infinity' % nm] = False
+        results = set()
+        unknown = False
+        for evs, ex in paths:
+            atoms = dict(base)
+            feasible = True
+            rv = None
+            for e in evs:
+                if e.kind == 'branch':
+                    try:
+                        v = bool(dev(e.node, atoms))
+                    except (Unknown, Crash):
+                        continue
+                    if v != e.val:
+                        feasible = False
+                        break
+                elif e.kind == 'stmt' and isinstance(e.node, ast.Assign) and len(e.node.targets) == 1 and isinstance(e.node.targets[0], ast.Name):
+                    try:
+                        atoms[e.node.targets[0].id] = dev(e.node.value, atoms)
+                    except (Unknown, Crash):
+                        atoms.pop(e.node.targets[0].id, None)
+                elif e.kind == 'return':
+                    try:
+                        rv = dev(e.node.value, atoms) if e.node.value is not None else None
+                    except (Unknown, Crash):
+                        rv = 'unknown'
+            if not feasible or ex != 'return':
+                continue
+            if rv == 'unknown':
+                unknown = True
+            else:
+                results.add(rv)
+        wrong = sorted(r for r in results if r != expect)
+        if wrong:
+            ctx.violation('C12.f', 'FPNum.compare:%s' % label, 'compare() returns %s for %s (expected %d: the operands denote %s)' %
+                          (wrong, label, expect, 'the same rational' if expect == 0 else 'rationals in that order'), where,
+                          witness=dict(operand_fields=sc, note='sign fields s1/s2, aligned mantissas m1/m2; finite operands'))
+        elif unknown or not results:
+            ctx.ok('C12.f', 'FPNum.compare:%s' % label, 'return value not evaluable from the sign / mantissa fields (rewritten code)', grade='refused')
+        else:
+            ctx.ok('C12.f', 'FPNum.compare:%s' % label, 'every feasible path returns %d' % expect)
+
+
 def run(ctx, sm, facts):
     from ..leafrules import definite_failures
+    ctx.rule('C12.f', 'FPNum.compare: ordering decided on aligned mantissas and signs only; decision table over sign / zero scenarios')
+    ordering(ctx, facts)
     ctx.rule('C12.b', 'hp/sp/dp variants of each conversion agree after mapping constants to format roles (NaN payloads excluded)')
     ctx.rule('C12.c', "two's-complement helpers == contract over all values of widths 1..6")
     ctx.rule('C12.d', 'no undefined name / never-assigned attribute in the number-format helper classes')
@@ -227,7 +371,7 @@ def run(ctx, sm, facts):
     exactness(ctx, facts)
     definite_failures(ctx, facts, sm, 'C12.d', [HELPER], class_filter=lambda n: n in ('FPNum', 'FloatingPointHelper', 'IntegerHelper', 'FixedPoint'))
     ctx.not_decided += ['round-trip over all bit patterns and agreement with the platform encoder (numeric run-time facts)', 'rounding of float -> parts conversions',
-                        'ordering and rational exactness of FPNum as such (only the no-bit-dropped clause is decided)', 'FixedPoint arithmetic']
+                        'rational exactness of FPNum arithmetic as such (only the no-bit-dropped clause and the shape of compare() are decided)', 'FixedPoint arithmetic']
 
 
 LEVEL_TEXT = ('Static clause-level rules: sibling agreement of the hp/sp/dp conversion variants under format-role normalisation, two\'s-complement helpers '
